@@ -209,6 +209,36 @@ theorem WholeClean.of_pf {w w' : World} (hc : WholeClean w) (pf : World.WholePF 
     rw [World.dir_of_dirs pf.dirs d] at hd
     exact hc.uniqueNames d es hd
 
+/-- `StartAt` from the footprint of the parse phase (and of everything that stays inside it, such as evaluation). -/
+theorem whole_startAt_of_pf (md : Maildir) (d : Handle) (name content : Bytes) (w w' : World) (fid : Nat)
+    (hd : md.dirH = some d) (hp : w.dirPath d = some md.path)
+    (hwf : pathjoin PATH_MAX md.root (subdirName md.subdir) = some md.path)
+    (hl : w.lookup md.path name = some fid) (hf : w.file fid = some ⟨content, content⟩) (hc : WholeClean w)
+    (pf : World.WholePF w w') (ms : MsgSt) (h1 : ms.name = name) (h2 : ms.loc = some (md.path, name)) (h3 : ms.content = content)
+    (h4 : ms.fd = some w.handles.length) (h5 : w.handles.length < w'.handles.length) (m : Msg) (fl : MFlags) :
+    StartAt w' { src := md, chsrc := false, ms := { ms with msg := m, flags := fl }, reject := false } content := by
+  have hc' := hc.of_pf pf
+  have hdlt : d < w.handles.length := World.lt_of_dirPath hp
+  refine ⟨⟨⟨d, hd, ?_⟩, ⟨fid, ?_, ?_⟩, hc'.noWriters, hc'.noStreams, hc'.freshIds, hc'.uniqueNames⟩, hwf, ?_, h3, ?_⟩
+  · rw [← hp]; exact World.dirPath_congr (pf.objs d hdlt)
+  · show w'.lookup md.path ms.name = some fid
+    rw [h1, World.lookup_of_dirs pf.dirs]; exact hl
+  · rw [World.whole_file_of_files pf.files]; exact hf
+  · show ms.loc = some (md.path, ms.name)
+    rw [h2, h1]
+  · intro h hh
+    have : h = w.handles.length := by
+      have : ms.fd = some h := hh
+      rw [h4] at this
+      cases this; rfl
+    subst this
+    refine ⟨h5, ?_⟩
+    show md.dirH ≠ some w.handles.length
+    rw [hd]
+    intro hcontra
+    cases hcontra
+    exact Nat.lt_irrefl _ hdlt
+
 /-- **start_of_parse** (calculus form): from a clean world in which `(md.path, name)` is bound to a
 file that holds `content` (visibly and durably), whatever fails while `message_parse` runs: the
 parse footprint holds after every call, and if the parse succeeds, the world together with the state
